@@ -99,8 +99,22 @@ REQ_SD = L.SearchRequest(1, [L.ShowDeletedControl(True)], "", L.SearchScope.BASE
 REQ_SDV = L.SearchRequest(2, [L.LDAPControl(SD, False, b"zz")], "", L.SearchScope.BASE, L.DereferencingPolicy.NEVER, 0, 0, False, L.FilterPresent("a"), []).pack(OPT)
 RESP_SD = L.SearchResultEntry(1, [L.ShowDeletedControl(False)], "cn=e", []).pack(OPT)
 RESP_SDV = L.SearchResultEntry(1, [L.LDAPControl(SD, True, b"yy")], "cn=f", []).pack(OPT)
+REQ_F_OR = L.SearchRequest(4, [], "", L.SearchScope.BASE, L.DereferencingPolicy.NEVER, 0, 0, False, L.FilterOr([L.FilterPresent("a"), L.FilterAnd([FFilter("w")])]), []).pack(OPT)
 PDU_REQ = make_msg("ExtReq", 1).pack(OPT)
 PDU_RESP = make_msg("ExtResp", 1).pack(OPT)
+
+# one buffer object the application reuses for every read, whichever session the bytes are for
+SHARED = {"client": bytearray(), "server": bytearray()}
+
+
+def _recv_shared(role: str, s: t.Any, part: bytes) -> t.Any:
+    buf = SHARED[role]
+    buf[:] = part
+    r = s.receive(buf)
+    if bytes(buf) != part:
+        raise AssertionError(f"receive modified the caller's input buffer: {bytes(buf).hex()[:40]}")
+    return r
+
 
 OPS: t.Dict[str, t.Dict[str, t.Callable[[t.Any], t.Any]]] = {
     "client": {
@@ -110,6 +124,8 @@ OPS: t.Dict[str, t.Dict[str, t.Callable[[t.Any], t.Any]]] = {
         "recv_resp1": lambda c: c.receive(PDU_RESP),
         "recv_half": lambda c: c.receive(PDU_RESP[:5]),
         "recv_rest": lambda c: c.receive(PDU_RESP[5:]),
+        "recv_half_buf": lambda c: _recv_shared("client", c, PDU_RESP[:5]),
+        "recv_rest_buf": lambda c: _recv_shared("client", c, PDU_RESP[5:]),
         "recv_done_X": lambda c: c.receive(RESP_X),
         "recv_code": lambda c: c.receive(RESP_CODE),
         "recv_SD": lambda c: c.receive(RESP_SD),
@@ -130,6 +146,8 @@ OPS: t.Dict[str, t.Dict[str, t.Callable[[t.Any], t.Any]]] = {
         "recv_ext": lambda s: s.receive(PDU_REQ),
         "recv_half": lambda s: s.receive(PDU_REQ[:4]),
         "recv_rest": lambda s: s.receive(PDU_REQ[4:]),
+        "recv_half_buf": lambda s: _recv_shared("server", s, PDU_REQ[:4]),
+        "recv_rest_buf": lambda s: _recv_shared("server", s, PDU_REQ[4:]),
         "recv_X": lambda s: s.receive(REQ_X),
         "recv_F": lambda s: s.receive(REQ_F),
         "recv_A": lambda s: s.receive(REQ_A),
@@ -179,7 +197,7 @@ def final_obs(s: t.Any) -> t.Any:
 
 
 def new(role: str) -> t.Any:
-    return L.LDAPClient() if role == "client" else L.LDAPServer()
+    return L.LDAPClient() if role.startswith("client") else L.LDAPServer()
 
 
 def alone(job: t.Tuple[str, t.Tuple[str, ...]]) -> t.Tuple[t.Any, ...]:
@@ -275,6 +293,16 @@ def config_check(sub_a: t.Tuple[str, ...], sub_b: t.Tuple[str, ...]) -> t.List[t
                 out.append((f"decode-raises:{type(e).__name__}:{ty}", f"server with {regs} receiving custom {ty}: {type(e).__name__}: {e}"))
                 continue
             known = ty in regs
+            if ty == "F" and known and not err:
+                # the registration must reach filters nested under every composite, not only the top level / NOT
+                b2 = L.LDAPServer()
+                _register(b2, regs)
+                try:
+                    got = b2.receive(REQ_F_OR)
+                    if got[0].filter != L.FilterOr([L.FilterPresent("a"), L.FilterAnd([FFilter("w")])]):
+                        out.append(("registered-type-not-decoded:F:nested", f"server with {regs} decoded {A.src(got[0].filter)}"))
+                except BaseException as e:  # noqa: BLE001
+                    out.append(("registered-type-not-decoded:F:nested", f"server with {regs}: a registered filter under OR/AND raised {type(e).__name__}: {e}"))
             if ty == "X":
                 if err or len(msgs) != 1 or len(msgs[0].controls) != 1:
                     out.append((f"control-message-lost:{'registered' if known else 'unregistered'}", f"server with {regs}: {err or msgs}"))
@@ -364,8 +392,8 @@ def histories(role: str, maxlen: int, ops: t.Optional[t.List[str]] = None) -> t.
 
 
 FOCUS = {
-    "client": [["reg_X", "recv_done_X", "search", "send_X", "recv_SD", "recv_SDv"], ["reg_F", "send_F", "reg_A", "send_A", "bind"], ["recv_half", "recv_rest", "ext", "recv_resp1", "recv_code", "unbind"]],
-    "server": [["reg_X", "recv_X", "recv_search", "resp_done_X", "recv_SD", "recv_SDv"], ["reg_F", "recv_F", "reg_A", "recv_A", "recv_bind", "resp_bind"], ["recv_half", "recv_rest", "recv_ext", "resp_ext", "notice", "unbind"]],
+    "client": [["reg_X", "recv_done_X", "search", "send_X", "recv_SD", "recv_SDv"], ["reg_F", "send_F", "reg_A", "send_A", "bind"], ["recv_half", "recv_rest", "recv_half_buf", "recv_rest_buf", "recv_resp1", "unbind"]],
+    "server": [["reg_X", "recv_X", "recv_search", "resp_done_X", "recv_SD", "recv_SDv"], ["reg_F", "recv_F", "reg_A", "recv_A", "recv_bind", "resp_bind"], ["recv_half", "recv_rest", "recv_half_buf", "recv_rest_buf", "resp_ext", "unbind"]],
 }
 
 
@@ -382,10 +410,34 @@ def run(ctx: evid.Ctx) -> None:
     ctx.add("traces_validated_against_impl", len(jobs_alone))
     ctx.note("alone_transcripts", len(jobs_alone))
     role_pairs = (("client", "client"), ("client", "server"), ("server", "server"))
-    _X["hists"] = base
-    jobs = [(ra, rb, a, b) for ra, rb in role_pairs for a, b in par.split(len(base[ra]), 48)]
-    for loc in par.pmap(_pairs, jobs, ctx.seed):
-        evid.absorb(ctx, loc)
+    if thorough:
+        _X["hists"] = base
+        jobs = [(ra, rb, a, b) for ra, rb in role_pairs for a, b in par.split(len(base[ra]), 48)]
+        for loc in par.pmap(_pairs, jobs, ctx.seed):
+            evid.absorb(ctx, loc)
+    else:
+        # quick: every (<=2) x (<=1) and (<=1) x (<=2) pair over the full alphabets, and every (<=2) x (<=2)
+        # pair within each focus group (operations that touch the same piece of per-session state)
+        ones = {r: [h for h in base[r] if len(h) == 1] for r in OPS}
+        for ha_set, hb_set in ((base, ones), (ones, base)):
+            for ra, rb in role_pairs:
+                _X["hists"] = {ra: ha_set[ra], rb: hb_set[rb]} if ra != rb else None
+                if ra == rb:
+                    # _pairs indexes one list per role: run same-role pairs through aliases
+                    _X["hists"] = {ra: ha_set[ra], ra + "#b": hb_set[ra]}
+                    OPS[ra + "#b"] = OPS[ra]
+                    jobs = [(ra, ra + "#b", a, b) for a, b in par.split(len(ha_set[ra]), 32)]
+                    _X["alone"].update({(ra + "#b", h): _X["alone"][(ra, h)] for h in hb_set[ra]})
+                else:
+                    jobs = [(ra, rb, a, b) for a, b in par.split(len(ha_set[ra]), 32)]
+                for loc in par.pmap(_pairs, jobs, ctx.seed):
+                    evid.absorb(ctx, loc)
+        for gi in range(3):
+            grp = {r: histories(r, 2, FOCUS[r][gi]) for r in OPS if "#" not in r}
+            _X["hists"] = grp
+            jobs = [(ra, rb, a, b) for ra, rb in role_pairs for a, b in par.split(len(grp[ra]), 16)]
+            for loc in par.pmap(_pairs, jobs, ctx.seed):
+                evid.absorb(ctx, loc)
     if thorough:
         for gi in range(3):
             _X["hists"] = {r: groups[r][gi] for r in OPS}
@@ -408,7 +460,7 @@ def run(ctx: evid.Ctx) -> None:
         "per-history transcripts obtained in pristine forked processes; plus 8x8 registration configurations x 3 custom types; "
         "distinct_nontrivial counts distinct (role pair, history of A) groups and configurations"
     )
-    ctx.bounds = {"history_len": 2, "thorough_len3_within_focus_groups": thorough, "alphabet": {r: list(OPS[r]) for r in OPS}, "role_pairs": ["client/client", "client/server", "server/server"], "configs": len(subsets) ** 2}
+    ctx.bounds = {"history_len": 2, "quick": "(<=2)x(<=1), (<=1)x(<=2) over the full alphabets + (<=2)x(<=2) within focus groups", "thorough": "(<=2)x(<=2) over the full alphabets + (<=3)x(<=3) within focus groups", "thorough_len3_within_focus_groups": thorough, "alphabet": {r: list(OPS[r]) for r in OPS}, "role_pairs": ["client/client", "client/server", "server/server"], "configs": len(subsets) ** 2}
     ctx.assumptions = ["the two sessions are not connected to each other; only hidden sharing inside the library can couple them"]
 
 
